@@ -350,7 +350,7 @@ def main(tier):
         "configurations that do not build on an empty cache are skipped (not a cache-key matter)",
         "the functions property is populated through OCCA_FUNCTION inside the driver (three fixed lambdas)",
     ]
-    ex.explore(common.budget(tier, 80, 900))
+    ex.explore(common.budget(tier, 60, 900))
     return ex.finish({"property_space": {k: len(v) for k, v in SPACE.items()}})
 
 
